@@ -148,10 +148,43 @@ Definition ok_truthful (obs : list stepobs) : bool :=
                                    end) items
                     | _ => true end) (emissions obs).
 
+(* ---- a named task that was launched is examined for cancellation after it
+        entered the executor's registry ----
+   Per uid, over the recorded actions (with the thread that performed them):
+     G0  not yet registered in self._tasks
+     G1  registered (self._tasks.update), not yet examined
+     G2  examined after the registration: the cancel handler looked it up in
+         self._tasks (get_task in control_cb), or the late check of
+         _launch_task found it on the cancel list (and calls cancel_task)
+     G3  the late check has MISSED it and no examination has happened since
+   At quiescence a named uid must not be in G3: every request that names it is
+   either registered on the cancel list before the late check (then the late
+   check hits), or its lookup in self._tasks comes after the task was entered
+   there -- the lookup then either finds the task (cancel_task: the process is
+   killed unless it has exited by then, see cancel_named_running) or the task
+   has already been finished.  So a named task is stopped unless it had
+   finished before the kill attempt; it cannot slip through between the
+   registration of the request and the launch. *)
+Inductive gex := G0 | G1 | G2 | G3.
+Definition gex_eqb (a b : gex) : bool :=
+  match a, b with G0, G0 | G1, G1 | G2, G2 | G3, G3 => true | _, _ => false end.
+Definition gex_ev (u : Z) (th : thread) (g : gex) (e : event) : gex :=
+  let '(k, v, a) := e in
+  if negb (v =? u) then g
+  else if k =? K_TASKS_UPDATE then match g with G0 => G1 | _ => g end
+  else if (k =? K_TASKS_GET) && thread_eqb th ThC then match g with G1 | G3 => G2 | _ => g end
+  else if (k =? K_CLIST_IN) && thread_eqb th ThI then match g with G1 => if a =? 1 then G2 else G3 | _ => g end
+  else g.
+Definition gex_step (u : Z) (g : gex) (o : stepobs) : gex :=
+  let '(th, es, _) := o in fold_left (gex_ev u th) es g.
+Definition gex_of (u : Z) (obs : list stepobs) : gex := fold_left (gex_step u) obs G0.
+Definition ok_named_examined (sc : scenario) (obs : list stepobs) (q : bool) : bool :=
+  negb q || forallb (fun u => negb (gex_eqb (gex_of u obs) G3)) (filter (fun u => mem u (named sc)) (delivered sc)).
+
 Definition c07_clauses (sc : scenario) (obs : list stepobs) (q : bool) : list bool :=
   let dl := delivered sc in let ems := emissions obs in
   [ ok_announced dl q ems; ok_handed_on dl q ems; ok_unscheduled dl q ems; ok_not_both dl ems;
-    ok_outcome_attached ems; ok_order dl ems; ok_truthful obs ].
+    ok_outcome_attached ems; ok_order dl ems; ok_truthful obs; ok_named_examined sc obs q ].
 
 Definition c07_row (sc : scenario) (sched : list choice) (obs : list stepobs) (q : bool) (fin : final) : list bool :=
   corr_bit sc sched obs q fin :: c07_clauses sc obs q.
@@ -230,7 +263,7 @@ Definition ok_bystanders (sc : scenario) (obs : list stepobs) (q : bool) : bool 
 
 Definition c08_exec_clauses (sc : scenario) (obs : list stepobs) (q : bool) : list bool :=
   [ ok_named_end sc q (emissions obs); ok_canceled_stopped (delivered sc) obs; ok_later_met sc obs;
-    ok_bystanders sc obs q ].
+    ok_bystanders sc obs q; ok_named_examined sc obs q ].
 
 Definition c08_exec_row (sc : scenario) (sched : list choice) (obs : list stepobs) (q : bool) (fin : final) : list bool :=
   corr_bit sc sched obs q fin :: c08_exec_clauses sc obs q.
